@@ -613,6 +613,44 @@ theorem withBlocks_congr {b b' : Blocks} {fs : List Method} (h : ∀ f ∈ fs, b
   intro f hf
   rw [h f hf]
 
+/-- a slot with a block of its own: only the methods themselves (name, signature) matter -/
+theorem vfuncPair_own_congr (own : Block) (fieldDoc : Option Str) (v : VSlot)
+    {methods methods' : List (Method × Option Block)} (h : methods.map (·.1) = methods'.map (·.1)) :
+    vfuncPair (some own) fieldDoc methods v = vfuncPair (some own) fieldDoc methods' v := by
+  have hf : (methods.find? (fun m => vmatch v m.1)).map (·.1) = (methods'.find? (fun m => vmatch v m.1)).map (·.1) := by
+    induction methods generalizing methods' with
+    | nil =>
+      cases methods' with
+      | nil => rfl
+      | cons y ys => simp at h
+    | cons x xs ih =>
+      cases methods' with
+      | nil => simp at h
+      | cons y ys =>
+        simp only [List.map_cons, List.cons.injEq] at h
+        simp only [List.find?_cons]
+        rw [← h.1]
+        cases vmatch v x.1 with
+        | true => simp [h.1]
+        | false => exact ih h.2
+  simp only [vfuncPair, Option.isSome_some, if_true]
+  cases applyCallable false Elem.fresh (some own) with
+  | error e => rfl
+  | ok e =>
+    simp only [bind, Except.bind]
+    cases h1 : methods.find? (fun m => vmatch v m.1) with
+    | none =>
+      cases h2 : methods'.find? (fun m => vmatch v m.1) with
+      | none => rfl
+      | some m' => rw [h1, h2] at hf; simp at hf
+    | some m =>
+      cases h2 : methods'.find? (fun m => vmatch v m.1) with
+      | none => rw [h1, h2] at hf; simp at hf
+      | some m' =>
+        rw [h1, h2] at hf
+        simp only [Option.map_some, Option.some.injEq] at hf
+        simp only [hf]
+
 /-- the explicit, finite key set of the virtual methods of container `n` -/
 def vfuncKeys (n : Node) : List Str :=
   (match n.structAnn with
@@ -929,34 +967,36 @@ theorem accessorStep_inv {p : PropInfo} {setter : Option Str} {cands : List (Str
         · rw [List.getElem?_set_ne hij] at hj
           exact h.inf j m sp g sp0 hj h0
     · split
-      · constructor
-        · intro j m sp gp hj
-          by_cases hij : i = j
-          · subst hij
-            rw [List.getElem?_set_self hlt] at hj
-            cases hj
-            exact h.meth i mi spi gpi hi
-          · rw [List.getElem?_set_ne hij] at hj
-            exact h.meth j m sp gp hj
-        · intro j m sp g sp0 hj h0
-          by_cases hij : i = j
-          · subst hij
-            rw [List.getElem?_set_self hlt] at hj
-            cases hj
-            refine ⟨?_, rfl⟩
-            cases hg : gpi with
-            | none => simp
-            | some g0 =>
-              simp only [Option.isNone_some, Bool.false_eq_true, if_false]
-              rw [hg] at hi
-              exact (h.inf i _ spi g0 sp0 hi h0).1
-          · rw [List.getElem?_set_ne hij] at hj
-            have := h.inf j m sp g sp0 hj h0
-            refine ⟨?_, this.2⟩
-            show j ∈ (if gpi.isNone = true then st.inferred ++ [i] else st.inferred)
-            cases gpi with
-            | none => simp [this.1]
-            | some _ => simpa using this.1
+      · split
+        · exact h
+        · constructor
+          · intro j m sp gp hj
+            by_cases hij : i = j
+            · subst hij
+              rw [List.getElem?_set_self hlt] at hj
+              cases hj
+              exact h.meth i mi spi gpi hi
+            · rw [List.getElem?_set_ne hij] at hj
+              exact h.meth j m sp gp hj
+          · intro j m sp g sp0 hj h0
+            by_cases hij : i = j
+            · subst hij
+              rw [List.getElem?_set_self hlt] at hj
+              cases hj
+              refine ⟨?_, rfl⟩
+              cases hg : gpi with
+              | none => simp
+              | some g0 =>
+                simp only [Option.isNone_some, Bool.false_eq_true, if_false]
+                rw [hg] at hi
+                exact (h.inf i _ spi g0 sp0 hi h0).1
+            · rw [List.getElem?_set_ne hij] at hj
+              have := h.inf j m sp g sp0 hj h0
+              refine ⟨?_, this.2⟩
+              show j ∈ (if gpi.isNone = true then st.inferred ++ [i] else st.inferred)
+              cases gpi with
+              | none => simp [this.1]
+              | some _ => simpa using this.1
       · exact h
 
 theorem accessorFold_inv {p : PropInfo} {setter : Option Str} {cands : List (Str × Nat)}
